@@ -1,7 +1,8 @@
 /-
 Model/LegacyBalance.lean — listings the generator emitted BEFORE the C04 fixes (taken from the
-real generator of the pinned tree through the `bal` channel), and the pre-fix effect of
-`AssignInstr`. Used only by the `legacy_…` theorems of Props/C04.lean. Core-only.
+real generator of the pinned tree through the `bal` channel; `letInitTailCall` and
+`packageContinue` written out by hand from the pre-fix generator code), and the pre-fix effect
+of `AssignInstr`. Used only by the `legacy_…` theorems of Props/C04.lean. Core-only.
 -/
 import ZygoVerif.Spec.Balanced
 import ZygoVerif.Model.StackEffect
@@ -30,6 +31,26 @@ def tailArity : Fn :=
   { kind := .fn, nformals := 1, nfixed := 1,
     code := [.addFuncScope, .popStackPutEnv, .callExpr 2, .branch false 7, .push, .push,
              .prepareCall 2, .removeScope, .goto 0, .jump 2, .envToStack, .removeScope, .ret false] }
+
+/-- `(defn f [x] (cond (<= x 0) 0 (let [a 1 b (f (- x 1))] (+ a b))))` before fix C04-08: the
+self call in the second initialiser is compiled as a tail call (`prepareCall; removeScope ×2;
+goto 0`) while the value of `a` is still on the data stack. -/
+def letInitTailCall : Fn :=
+  { kind := .fn, nformals := 1, nfixed := 1,
+    code := [.addFuncScope, .popStackPutEnv, .callExpr 2, .branch false 3, .push, .jump 12,
+             .addScope, .push, .callExpr 2, .prepareCall 1, .removeScope, .removeScope, .goto 0,
+             .popStackPutEnv, .popStackPutEnv, .callExpr 2, .removeScope, .removeScope, .ret false] }
+
+/-- `(for [(def i 0) (< i 2) (set i (+ i 1))] (package "p" (def X 1) (continue)))` before fix
+C04-09: the `continue` inside the package body pops no scope (the package scope is not
+counted). -/
+def packageContinue : Fn :=
+  { kind := .top,
+    code := [.loopStart 1, .addScope, .pushMark 1, .label, .push, .dup, .popStackPutEnv,
+             .popUntilMark 1, .jump 6, .label, .callExpr 2, .dup, .update, .popUntilMark 1,
+             .label, .callExpr 2, .branch false 13, .label, .addScope, .pushMark 2, .push, .dup,
+             .popStackPutEnv, .cont 1 9 0, .popUntilMark 2, .pop, .popScopeXfer,
+             .popUntilMark 1, .jump (-19), .label, .clearMark 1, .removeScope, .push] }
 
 /-- `(defn g [] {a[0] = 99})`. -/
 def selAssignBody : Fn :=
